@@ -1,0 +1,338 @@
+//go:build verif
+// +build verif
+
+package linker
+
+import (
+	"sort"
+
+	"github.com/evanw/esbuild/internal/ast"
+	"github.com/evanw/esbuild/internal/bundler"
+	"github.com/evanw/esbuild/internal/config"
+	"github.com/evanw/esbuild/internal/fs"
+	"github.com/evanw/esbuild/internal/graph"
+	"github.com/evanw/esbuild/internal/helpers"
+	"github.com/evanw/esbuild/internal/js_ast"
+	"github.com/evanw/esbuild/internal/logger"
+	"github.com/evanw/esbuild/internal/resolver"
+	"github.com/evanw/esbuild/internal/runtime"
+)
+
+// Used by the verification harness in /verif (property C10, code splitting).
+// No logic of its own: VerifC10Link returns a function with the signature of
+// Link whose body is the body of Link with TWO extra calls that copy plain
+// data out of the linker: the per-file inputs of code splitting after
+// treeShakingAndCodeSplitting (import records, parts with liveness,
+// dependencies, raw symbol uses and top-level declarations, ImportsToBind,
+// resolved exports, entry bits, distances), and the chunks after
+// computeCrossChunkDependencies (which rewrites import() records, hence the
+// two calls). The harness checks that the output files equal those of Link.
+
+type VerifC10Part struct {
+	IsLive   bool
+	Deps     []uint32    // Dependencies[i].SourceIndex
+	Uses     [][2]uint32 // keys of SymbolUses (raw refs), sorted
+	Declared [][2]uint32 // top-level DeclaredSymbols (raw refs)
+}
+
+type VerifC10Bind struct {
+	Key    [2]uint32
+	Target [2]uint32
+}
+
+type VerifC10Export struct {
+	Alias string
+	Src   uint32 // ResolvedExports[alias].SourceIndex
+	Ref   [2]uint32
+}
+
+type VerifC10Symbol struct {
+	Name       string
+	Kind       uint8
+	Missing    bool // ImportItemStatus == ImportItemMissing
+	HasNSAlias bool
+	ChunkValid bool // after computeCrossChunkDependencies
+	Chunk      uint32
+}
+
+type VerifC10File struct {
+	Path       string
+	IsJS       bool
+	IsLive     bool
+	IsEntry    bool
+	IsUser     bool
+	Wrap       uint8
+	Stable     uint32
+	Distance   uint32
+	EntryBits  []byte
+	Records    [][2]int32 // (target source index or -1, ast.ImportKind)
+	Parts      []VerifC10Part
+	Binds      []VerifC10Bind   // Meta.ImportsToBind, sorted by key
+	Exports    []VerifC10Export // in SortedAndFilteredExportAliases order
+	ExportsRef [2]uint32
+	Symbols    []VerifC10Symbol // by inner index
+}
+
+type VerifC10ChunkImport struct {
+	Chunk   uint32
+	Refs    [][2]uint32 // in sortedCrossChunkImports item order
+	Aliases []string
+}
+
+type VerifC10Chunk struct {
+	IsJS         bool
+	EntryBits    []byte
+	IsEntry      bool
+	EntryBit     uint32
+	SourceIndex  uint32
+	FilesInOrder []uint32
+	Imports      []VerifC10ChunkImport // importsFromOtherChunks via sortedCrossChunkImports
+	ExportRefs   [][2]uint32           // exportsToOtherChunks via sortedCrossChunkExportItems
+	ExportNames  []string
+	CrossKinds   []uint8 // crossChunkImports[i].importKind
+	CrossChunks  []uint32
+}
+
+type VerifC10Dump struct {
+	EntryPoints []uint32
+	Reachable   []uint32
+	Files       []VerifC10File
+	Chunks      []VerifC10Chunk
+}
+
+func verifC10Pair(ref ast.Ref) [2]uint32 { return [2]uint32{ref.SourceIndex, ref.InnerIndex} }
+
+func verifC10Less(a, b [2]uint32) bool { return a[0] < b[0] || (a[0] == b[0] && a[1] < b[1]) }
+
+func verifC10DumpFiles(c *linkerContext, dump *VerifC10Dump) {
+	for _, entryPoint := range c.graph.EntryPoints() {
+		dump.EntryPoints = append(dump.EntryPoints, entryPoint.SourceIndex)
+	}
+	dump.Reachable = append(dump.Reachable, c.graph.ReachableFiles...)
+	dump.Files = make([]VerifC10File, len(c.graph.Files))
+	for _, sourceIndex := range c.graph.ReachableFiles {
+		file := &c.graph.Files[sourceIndex]
+		out := &dump.Files[sourceIndex]
+		out.Path = file.InputFile.Source.PrettyPaths.Rel
+		out.IsLive = file.IsLive
+		out.IsEntry = file.IsEntryPoint()
+		out.IsUser = file.IsUserSpecifiedEntryPoint()
+		out.Stable = c.graph.StableSourceIndices[sourceIndex]
+		out.Distance = file.DistanceFromEntryPoint
+		out.EntryBits = []byte(file.EntryBits.String())
+		repr, ok := file.InputFile.Repr.(*graph.JSRepr)
+		if !ok {
+			continue
+		}
+		out.IsJS = true
+		out.Wrap = uint8(repr.Meta.Wrap)
+		out.ExportsRef = verifC10Pair(repr.AST.ExportsRef)
+		for _, record := range repr.AST.ImportRecords {
+			target := int32(-1)
+			if record.SourceIndex.IsValid() {
+				target = int32(record.SourceIndex.GetIndex())
+			}
+			out.Records = append(out.Records, [2]int32{target, int32(record.Kind)})
+		}
+		out.Parts = make([]VerifC10Part, len(repr.AST.Parts))
+		for j := range repr.AST.Parts {
+			part := &repr.AST.Parts[j]
+			p := &out.Parts[j]
+			p.IsLive = part.IsLive
+			for _, dep := range part.Dependencies {
+				p.Deps = append(p.Deps, dep.SourceIndex)
+			}
+			for ref := range part.SymbolUses {
+				p.Uses = append(p.Uses, verifC10Pair(ref))
+			}
+			sort.Slice(p.Uses, func(a, b int) bool { return verifC10Less(p.Uses[a], p.Uses[b]) })
+			for _, declared := range part.DeclaredSymbols {
+				if declared.IsTopLevel {
+					p.Declared = append(p.Declared, verifC10Pair(declared.Ref))
+				}
+			}
+		}
+		for ref, data := range repr.Meta.ImportsToBind {
+			out.Binds = append(out.Binds, VerifC10Bind{Key: verifC10Pair(ref), Target: verifC10Pair(data.Ref)})
+		}
+		sort.Slice(out.Binds, func(a, b int) bool { return verifC10Less(out.Binds[a].Key, out.Binds[b].Key) })
+		for _, alias := range repr.Meta.SortedAndFilteredExportAliases {
+			export := repr.Meta.ResolvedExports[alias]
+			out.Exports = append(out.Exports, VerifC10Export{Alias: alias, Src: export.SourceIndex, Ref: verifC10Pair(export.Ref)})
+		}
+	}
+}
+
+func verifC10DumpChunks(c *linkerContext, dump *VerifC10Dump) {
+	for _, sourceIndex := range c.graph.ReachableFiles {
+		symbols := c.graph.Symbols.SymbolsForSource[sourceIndex]
+		out := &dump.Files[sourceIndex]
+		out.Symbols = make([]VerifC10Symbol, len(symbols))
+		for i := range symbols {
+			symbol := &symbols[i]
+			s := VerifC10Symbol{Name: symbol.OriginalName, Kind: uint8(symbol.Kind), Missing: symbol.ImportItemStatus == ast.ImportItemMissing,
+				HasNSAlias: symbol.NamespaceAlias != nil, ChunkValid: symbol.ChunkIndex.IsValid()}
+			if s.ChunkValid {
+				s.Chunk = symbol.ChunkIndex.GetIndex()
+			}
+			out.Symbols[i] = s
+		}
+	}
+	dump.Chunks = make([]VerifC10Chunk, len(c.chunks))
+	for i := range c.chunks {
+		chunk := &c.chunks[i]
+		out := &dump.Chunks[i]
+		out.EntryBits = []byte(chunk.entryBits.String())
+		out.IsEntry = chunk.isEntryPoint
+		out.EntryBit = uint32(chunk.entryPointBit)
+		out.SourceIndex = chunk.sourceIndex
+		for _, ci := range chunk.crossChunkImports {
+			out.CrossKinds = append(out.CrossKinds, uint8(ci.importKind))
+			out.CrossChunks = append(out.CrossChunks, ci.chunkIndex)
+		}
+		chunkRepr, ok := chunk.chunkRepr.(*chunkReprJS)
+		if !ok {
+			continue
+		}
+		out.IsJS = true
+		out.FilesInOrder = append(out.FilesInOrder, chunkRepr.filesInChunkInOrder...)
+		for _, imp := range c.sortedCrossChunkImports(chunkRepr.importsFromOtherChunks) {
+			ci := VerifC10ChunkImport{Chunk: imp.chunkIndex}
+			for _, item := range imp.sortedImportItems {
+				ci.Refs = append(ci.Refs, verifC10Pair(item.ref))
+				ci.Aliases = append(ci.Aliases, item.exportAlias)
+			}
+			out.Imports = append(out.Imports, ci)
+		}
+		exportRefs := make(map[ast.Ref]bool)
+		for ref := range chunkRepr.exportsToOtherChunks {
+			exportRefs[ref] = true
+		}
+		for _, item := range c.sortedCrossChunkExportItems(exportRefs) {
+			out.ExportRefs = append(out.ExportRefs, verifC10Pair(item.Ref))
+			out.ExportNames = append(out.ExportNames, chunkRepr.exportsToOtherChunks[item.Ref])
+		}
+	}
+}
+
+func VerifC10Link(dump *VerifC10Dump) func(
+	options *config.Options,
+	timer *helpers.Timer,
+	log logger.Log,
+	fs fs.FS,
+	res *resolver.Resolver,
+	inputFiles []graph.InputFile,
+	entryPoints []graph.EntryPoint,
+	uniqueKeyPrefix string,
+	reachableFiles []uint32,
+	dataForSourceMaps func() []bundler.DataForSourceMap,
+) []graph.OutputFile {
+	return func(
+		options *config.Options,
+		timer *helpers.Timer,
+		log logger.Log,
+		fs fs.FS,
+		res *resolver.Resolver,
+		inputFiles []graph.InputFile,
+		entryPoints []graph.EntryPoint,
+		uniqueKeyPrefix string,
+		reachableFiles []uint32,
+		dataForSourceMaps func() []bundler.DataForSourceMap,
+	) []graph.OutputFile {
+		// ---- copy of the body of Link (linker.go) ----
+		timer.Begin("Link")
+		defer timer.End("Link")
+
+		log = wrappedLog(log)
+
+		timer.Begin("Clone linker graph")
+		c := linkerContext{
+			options:              options,
+			timer:                timer,
+			log:                  log,
+			fs:                   fs,
+			res:                  res,
+			dataForSourceMaps:    dataForSourceMaps,
+			uniqueKeyPrefix:      uniqueKeyPrefix,
+			uniqueKeyPrefixBytes: []byte(uniqueKeyPrefix),
+			graph: graph.CloneLinkerGraph(
+				inputFiles,
+				reachableFiles,
+				entryPoints,
+				options.CodeSplitting,
+			),
+		}
+		timer.End("Clone linker graph")
+
+		runtimeRepr := c.graph.Files[runtime.SourceIndex].InputFile.Repr.(*graph.JSRepr)
+		if c.options.ProfilerNames {
+			c.cjsRuntimeRef = runtimeRepr.AST.NamedExports["__commonJS"].Ref
+			c.esmRuntimeRef = runtimeRepr.AST.NamedExports["__esm"].Ref
+		} else {
+			c.cjsRuntimeRef = runtimeRepr.AST.NamedExports["__commonJSMin"].Ref
+			c.esmRuntimeRef = runtimeRepr.AST.NamedExports["__esmMin"].Ref
+		}
+
+		var additionalFiles []graph.OutputFile
+		for _, entryPoint := range entryPoints {
+			file := &c.graph.Files[entryPoint.SourceIndex].InputFile
+			switch repr := file.Repr.(type) {
+			case *graph.JSRepr:
+				if repr.AST.HasLazyExport && (c.options.Mode == config.ModePassThrough ||
+					(c.options.Mode == config.ModeConvertFormat && !c.options.OutputFormat.KeepESMImportExportSyntax())) {
+					repr.AST.ExportsKind = js_ast.ExportsCommonJS
+				}
+				if repr.AST.ExportKeyword.Len > 0 && (options.OutputFormat == config.FormatCommonJS ||
+					(options.OutputFormat == config.FormatIIFE && len(options.GlobalName) > 0)) {
+					repr.AST.UsesExportsRef = true
+					repr.Meta.ForceIncludeExportsForEntryPoint = true
+				}
+			case *graph.CopyRepr:
+				additionalFiles = append(additionalFiles, file.AdditionalFiles...)
+			}
+		}
+
+		if c.options.OutputFormat == config.FormatCommonJS {
+			c.unboundModuleRef = c.graph.GenerateNewSymbol(runtime.SourceIndex, ast.SymbolUnbound, "module")
+		} else {
+			c.unboundModuleRef = ast.InvalidRef
+		}
+
+		c.scanImportsAndExports()
+
+		if c.log.HasErrors() {
+			c.options.ExclusiveMangleCacheUpdate(func(map[string]interface{}, map[string]bool) {
+			})
+			return []graph.OutputFile{}
+		}
+
+		c.treeShakingAndCodeSplitting()
+
+		verifC10DumpFiles(&c, dump) // <---- added call 1 of 2
+
+		if c.options.Mode == config.ModePassThrough {
+			for _, entryPoint := range c.graph.EntryPoints() {
+				c.preventExportsFromBeingRenamed(entryPoint.SourceIndex)
+			}
+		}
+
+		c.computeChunks()
+		c.computeCrossChunkDependencies()
+
+		verifC10DumpChunks(&c, dump) // <---- added call 2 of 2
+
+		c.timer.Begin("Waiting for mangle cache")
+		c.options.ExclusiveMangleCacheUpdate(func(
+			mangleCache map[string]interface{},
+			cssUsedLocalNames map[string]bool,
+		) {
+			c.timer.End("Waiting for mangle cache")
+			c.mangleProps(mangleCache)
+			c.mangleLocalCSS(cssUsedLocalNames)
+		})
+
+		ast.FollowAllSymbols(c.graph.Symbols)
+
+		return c.generateChunksInParallel(additionalFiles)
+	}
+}
